@@ -1,0 +1,158 @@
+//go:build verif
+
+package textwire
+
+import (
+	"encoding/json"
+	"fmt"
+	"os"
+	"sort"
+	"sync"
+
+	"github.com/textwire/textwire/v2/ast"
+	"github.com/textwire/textwire/v2/config"
+)
+
+// Verification hooks (build tag "verif"). They only observe or reset
+// package-level state; no production code path depends on them.
+
+// VerifGate, when set, is called at every hook point with the point's name.
+// It may block (scheduler gate) or record (trace).
+var VerifGate func(point string)
+
+func verifGate(point string) {
+	if g := VerifGate; g != nil {
+		g(point)
+	}
+}
+
+// VerifState is the package-level mutable state of the public API.
+type VerifState struct {
+	UsesTemplates bool                `json:"usesTemplates"`
+	Dir           string              `json:"dir"`
+	Ext           string              `json:"ext"`
+	ErrorPage     string              `json:"errorPage"`
+	Debug         bool                `json:"debug"`
+	Funcs         map[string][]string `json:"funcs"`
+}
+
+// VerifReset restores the package-level state to its initial value.
+func VerifReset() {
+	userConfig = config.New("templates", ".tw.html", "", false)
+	customFunc = config.NewFunc()
+	usesTemplates = false
+}
+
+// VerifSnapshot returns a copy of the package-level state.
+func VerifSnapshot() VerifState {
+	s := VerifState{
+		UsesTemplates: usesTemplates,
+		Dir:           userConfig.TemplateDir,
+		Ext:           userConfig.TemplateExt,
+		ErrorPage:     userConfig.ErrorPagePath,
+		Debug:         userConfig.DebugMode,
+		Funcs:         map[string][]string{"str": {}, "arr": {}, "int": {}, "float": {}, "bool": {}},
+	}
+	for k := range customFunc.Str {
+		s.Funcs["str"] = append(s.Funcs["str"], k)
+	}
+	for k := range customFunc.Arr {
+		s.Funcs["arr"] = append(s.Funcs["arr"], k)
+	}
+	for k := range customFunc.Int {
+		s.Funcs["int"] = append(s.Funcs["int"], k)
+	}
+	for k := range customFunc.Float {
+		s.Funcs["float"] = append(s.Funcs["float"], k)
+	}
+	for k := range customFunc.Bool {
+		s.Funcs["bool"] = append(s.Funcs["bool"], k)
+	}
+	for _, v := range s.Funcs {
+		sort.Strings(v)
+	}
+	return s
+}
+
+// VerifProgram describes one loaded program: its printed form and, for each
+// component use, the identity class of the component program it points at.
+type VerifProgram struct {
+	Text  string   `json:"text"`
+	Comps []string `json:"comps"`
+}
+
+// VerifPrograms returns a description of the programs of a loaded Template.
+func VerifPrograms(t *Template) map[string]VerifProgram {
+	res := map[string]VerifProgram{}
+	if t == nil {
+		return res
+	}
+	ids := map[*ast.Program]int{}
+	names := make([]string, 0, len(t.programs))
+	for name := range t.programs {
+		names = append(names, name)
+	}
+	sort.Strings(names)
+	for _, name := range names {
+		prog := t.programs[name]
+		vp := VerifProgram{Text: verifText(prog), Comps: []string{}}
+		for _, c := range prog.Components {
+			id, ok := ids[c.Block]
+			if !ok {
+				id = len(ids)
+				ids[c.Block] = id
+			}
+			vp.Comps = append(vp.Comps, fmt.Sprintf("%s#%d:%s", c.Name.Value, id, verifText(c.Block)))
+		}
+		res[name] = vp
+	}
+	return res
+}
+
+func verifText(p *ast.Program) (s string) {
+	defer func() {
+		if r := recover(); r != nil {
+			s = fmt.Sprintf("<unprintable: %v>", r)
+		}
+	}()
+	if p == nil {
+		return "<nil>"
+	}
+	return p.String()
+}
+
+// VerifNames returns the sorted names registered in a loaded Template.
+func VerifNames(t *Template) []string {
+	names := []string{}
+	if t == nil {
+		return names
+	}
+	for name := range t.programs {
+		names = append(names, name)
+	}
+	sort.Strings(names)
+	return names
+}
+
+// When VERIF_API_TRACE names a file, every hook point is appended to it as one
+// JSON line {"seq", "point", "state"}; used to trace the repository's own tests.
+var verifTraceMu sync.Mutex
+var verifTraceSeq int
+
+func init() {
+	path := os.Getenv("VERIF_API_TRACE")
+	if path == "" {
+		return
+	}
+	f, err := os.OpenFile(path, os.O_APPEND|os.O_CREATE|os.O_WRONLY, 0o644)
+	if err != nil {
+		return
+	}
+	VerifGate = func(point string) {
+		verifTraceMu.Lock()
+		defer verifTraceMu.Unlock()
+		verifTraceSeq++
+		line, _ := json.Marshal(map[string]any{"seq": verifTraceSeq, "point": point, "state": VerifSnapshot()})
+		f.Write(append(line, '\n'))
+	}
+}
